@@ -30,14 +30,60 @@ MANIFEST = {
             "predicate (residuals, unit vectors, thresholds, finiteness, draw counts, 0-capacity).",
     "design_ref": "DESIGN.md §6 C04",
     "note": "Partial: proofs are about the real-number reading (rounding measured, not proved); "
-            "Seltzer–Berger / relativistic-brem energy samplers, Wentzel and Rayleigh form-factor "
-            "loops, Livermore shell selection, calc_max_secondaries, Bethe–Heitler above 2 MeV, "
-            "MuBB/Bragg/ICRU73QO distributions, muon bremsstrahlung and CHIPS neutron elastic are "
-            "NOT modelled in Lean (imported tables): oracle only; neutron elastic is not driven. "
+            "Seltzer–Berger / relativistic-brem rejection functions, the Wentzel "
+            "distribution, Livermore shell selection, calc_max_secondaries, Bethe–Heitler rejection "
+            "above 2 MeV, MuBB/Bragg/ICRU73QO distributions and the neutron interactors are NOT "
+            "modelled in Lean: oracle only (neutron: not driven); see "
+            "coverage.interactor_model_status. "
             "No worst-case draw bound exists for adversarial streams; KN per-iteration acceptance "
             ">= 1/2 is proved, draw counts are measured. Momentum conservation is FALSE for "
             "EPlusGGInteractor as written (negation proved; known finding eplusgg-momentum); the "
             "other momentum theorems carry the hypothesis rotOK (rotate() sign loss near ±z).",
+}
+
+
+# (i) modelled in Lean + diffed bit-exactly + theorems; (ii) modelled/diffed only or formula +
+# theorem without diff; (iii) oracle only
+INTERACTOR_MODEL_STATUS = {
+    "KleinNishinaInteractor": "(i) whole operator(): rejection loop, angle, electron, cutoff/deposit; "
+        "theorems kn_*",
+    "EPlusGGInteractor": "(i) whole operator() in flight and at rest; theorems gg_* (momentum: "
+        "negation proved, known finding)",
+    "MollerBhabhaInteractor": "(i) whole operator() incl. Moller/Bhabha energy distributions and "
+        "IoniFinalStateHelper; theorems mb_*, ioni_*",
+    "MuHadIonizationInteractor<BetheBlochEnergyDistribution>": "(i) whole operator() incl. "
+        "calc_max_secondary_energy; theorems muhad_*, ioni_*",
+    "MuHadIonizationInteractor<MuBB / BraggICRU73QO>": "(i) final state (IoniFinalStateHelper) via "
+        "ioni_* theorems only; (iii) the MuBB and Bragg/ICRU73QO energy distributions",
+    "MuBremsstrahlungInteractor": "(i) whole operator(): ReciprocalDistribution + rejection on "
+        "MuBremsDiffXsCalculator (modelled; pow/cbrt element constants are oracle inputs), "
+        "sample_cos_theta, BremFinalStateHelper; theorems mubrems_* (DCS is a parameter)",
+    "RayleighInteractor": "(i) whole operator(): evaluate_weight_and_prob, selector, form-factor loop, "
+        "exiting direction (fit parameters a,b,n are oracle inputs); theorems rayleigh_* "
+        "(cos range needs weights in [0,1], n >= 1/2 as hypotheses)",
+    "BetheHeitlerInteractor": "(i) E < 2 MeV branch whole operator() + pair final state (bh_*, bhlow_*); "
+        "(ii) E >= 2 MeV: epsilon formulas f1/f2 and energy split modelled with theorem "
+        "bh_high_energy_leptons_nonneg, NOT diffed; (iii) screening functions, Coulomb "
+        "correction, LPM rejection",
+    "SeltzerBergerInteractor / RelativisticBremInteractor / CombinedBremInteractor": "(i) Tsai-Urban "
+        "angle + BremFinalStateHelper (bremtail op; brem_*); (ii) photon-energy proposal "
+        "sqrt(Reciprocal(kmin^2+kdc^2, T^2+kdc^2) - kdc^2) modelled with theorem "
+        "brems_proposal_in_closed_interval, NOT diffed; (iii) SB tables / RB+LPM cross section "
+        "rejection, positron correction",
+    "LivermorePEInteractor": "(i) AtomicRelaxation cascade (relax op; relaxation_*) and the energy "
+        "bookkeeping livermoreFinal (livermore_*), the latter not diffed on its own; (iii) subshell "
+        "selection (tabulated cross sections), Sauter-Gavrila direction",
+    "AtomicRelaxation": "(i) whole operator() on arbitrary transition tables; (iii) "
+        "calc_max_secondaries bound (xrelax oracle)",
+    "CoulombScatteringInteractor": "(i) operator() after the angle sample: recoil energy, energy "
+        "bookkeeping, exiting direction (coulombFinal; cos θ and its draw count are RECORDED "
+        "oracle inputs from the real WentzelDistribution, re-checked by the harness); theorems "
+        "coulomb_energy_conserved, coulomb_recoil_range; (iii) WentzelDistribution itself",
+    "ChipsNeutronElasticInteractor / NeutronInelasticInteractor": "(iii) not driven at all (no "
+        "fixture in the harness): NOT covered",
+    "shared helpers": "(i) rotate, from_spherical, make_unit_vector, calc_exiting_direction, "
+        "ExitingDirectionSampler, StackAllocator request, Bernoulli/Reciprocal/UniformReal/"
+        "InverseSquare/Isotropic/RejectionSampler/Selector(3)",
 }
 
 EMASS = 0.5109989461
@@ -128,13 +174,28 @@ def gen_alloc(rng, need):
 
 
 # model -> (needed slots, particle, E range, cut range or None)
-MODELLED = ["kn", "gg", "mb", "muhad", "bhlow", "relax", "bremtail", "rotate", "exitdir", "calcexit"]
+MODELLED = ["kn", "gg", "mb", "muhad", "bhlow", "relax", "mubrems", "rayleigh", "bremtail", "rotate",
+            "exitdir", "calcexit"]
+ORACLE_CONSTS = {}      # filled from the harness op `consts2` (values the real code uses)
 
 
 def gen_model_line(rng, kind):
     if kind == "relax":
         return gen_relax_line(rng)
     d = gen_dir(rng)
+    if kind == "mubrems":
+        cut = log_uniform(rng, 1e-3, 10.0)
+        e = max(log_uniform(rng, cut, 1e7), cut * (1 + 2.0 ** -30))
+        cap, size = gen_alloc(rng, 1)
+        sc = " ".join(map(hx, gen_script(rng, rng.choice([0, 2, 4, 6, 8, 12, 20, 40]))))
+        return "mubrems %d %d %s %s | %s" % (cap, size, " ".join(map(hx, [e, cut] + d)),
+                                            ORACLE_CONSTS["mubrems"], sc)
+    if kind == "rayleigh":
+        el = rng.below(3)
+        e = log_uniform(rng, 1e-4, 1e2)
+        sc = " ".join(map(hx, gen_script(rng, rng.choice([0, 3, 4, 7, 10, 16, 31, 61]))))
+        return "rayleigh %d %s %s %s | %s" % (el, " ".join(map(hx, [e] + d)), ORACLE_CONSTS["ray"],
+                                             ORACLE_CONSTS["rayp"][el], sc)
     script = gen_script(rng, rng.choice([0, 1, 2, 3, 4, 5, 7, 9, 12, 16, 24]))
     sc = " ".join(map(hx, script))
     if kind == "kn":
@@ -290,6 +351,31 @@ def gen_oracle_line(rng, name, scripted):
     if scripted:
         return head + " | u " + " ".join(map(hx, gen_script(rng, rng.choice([4, 8, 16, 32, 64]))))
     return head + " | s %x" % rng.below(1 << 32)
+
+
+def gen_coulomb_lines(rng, exe, n):
+    """two-pass recorded oracle: pass 1 asks the real WentzelDistribution (built as the interactor
+    builds it) for cos θ and the number of uniforms it consumed on the script; pass 2 ops carry
+    them as oracle inputs (the harness re-checks them) so that the model can reproduce
+    CoulombScatteringInteractor's recoil bookkeeping and exiting direction exactly"""
+    heads, p1 = [], []
+    for _ in range(n):
+        sgn, ff, iso = rng.choice("-+"), rng.choice("012"), rng.choice("ab")
+        e = min(log_uniform(rng, 1e-3, 1e8), 1e8 * (1 - 2.0 ** -40))
+        cut = log_uniform(rng, 1e-3, 1.0)
+        d = gen_dir(rng)
+        sc = " ".join(map(hx, gen_script(rng, rng.choice([1, 2, 3, 4, 6, 8, 12]))))
+        heads.append((sgn, ff, iso, e, cut, d, sc))
+        p1.append("wentzel %s %s %s %s %s | %s" % (sgn, ff, iso, hx(e), hx(cut), sc))
+    _, o1 = vlib.run_lines([exe], p1)
+    lines = []
+    for (sgn, ff, iso, e, cut, d, sc), o in zip(heads, o1):
+        w = o.split()
+        if len(w) == 4 and w[0] == "wz":
+            lines.append("coulomb %s %s %s %s %s %s %s %s | %s"
+                         % (sgn, ff, iso, w[2], hx(e), hx(cut), " ".join(map(hx, d)), w[1] + " " + w[3],
+                            sc))
+    return lines
 
 
 def gen_relax_line(rng, op="relax"):
@@ -633,6 +719,16 @@ def run(ctx):
                              "explanation": "harness build failed"})
         return LEVEL
     rng = ctx.rng
+    _, oc = vlib.run_lines([exe], ["consts2"])
+    parts = [x.split() for x in (oc[0] if oc else "").split("|")]
+    if len(parts) != 3 or len(parts[0]) != 9 or len(parts[1]) != 2 or len(parts[2]) != 27:
+        ctx.violation("harness-consts2", "harness op consts2 gave no oracle constants",
+                      {"output": oc[:1]}, found_input=False)
+        ctx.coverage.update({"evaluations": 0, "distinct_nontrivial": 0,
+                             "explanation": "oracle constants missing"})
+        return LEVEL
+    ORACLE_CONSTS.update({"mubrems": " ".join(parts[0]), "ray": " ".join(parts[1]),
+                          "rayp": [" ".join(parts[2][9 * i:9 * i + 9]) for i in range(3)]})
     # ---- correspondence: model vs implementation, exact
     n_corr = 20000 if quick else 150000
     lines = ["consts"]
@@ -643,7 +739,8 @@ def run(ctx):
                 lines += [l.rstrip("\n") for l in open(vlib.os.path.join(corpus, fn))
                           if l.strip() and not l.startswith("#")]
     for _ in range(n_corr):
-        lines.append(gen_model_line(rng, rng.choice(MODELLED[:6] * 3 + MODELLED[6:])))
+        lines.append(gen_model_line(rng, rng.choice(MODELLED[:8] * 3 + MODELLED[8:])))
+    lines += gen_coulomb_lines(rng, exe, 1500 if quick else 15000)
     lines += [l for l in MALFORMED if not l.startswith("x")]
     diverged, kinds, distinct = [], {}, set()
     outcome_mix = {}
@@ -777,6 +874,7 @@ def run(ctx):
                 "uniforms; non-trivial = answered neither bad-op nor script-exhausted; distinct = "
                 "distinct op lines",
         "op_mix": dict(sorted(kinds.items())), "outcome_mix": dict(sorted(outcome_mix.items())),
+        "interactor_model_status": INTERACTOR_MODEL_STATUS,
         "oracle_cases": len(olines) + n_rot + n_xrelax, "oracle_corpus_ops": n_xcorpus, "oracle_failures": n_fail,
         "oracle_outcomes": dict(sorted(omix.items())), "max_draws_seen": {k: v[0] for k, v in sorted(max_draws.items())},
         "max_draws_ops": {k: v[1] for k, v in sorted(max_draws.items()) if v[1]},
